@@ -327,7 +327,8 @@ def solve(h, gb, wd):
         if not fails:
             raise ToolError("cbmc left %d properties UNKNOWN without reporting a failure" % len(unknown))
         failed_so_far += fails
-        keep = [r["property"] for r in v["results"] if r["status"] != "FAILURE"]
+        keep = [r["property"] for r in v["results"] if r["status"] != "FAILURE"
+                and not re.search(r"\.(unwind|recursion)(\.\d+)?$", r["property"])]
         sel_args, n_sel = [], len(keep)
         for k in keep:
             sel_args += ["--property", k]
@@ -395,8 +396,11 @@ def solve_once(h, gb, wd, sel_args, n_sel, time_left):
         raise ToolError("back ends disagree: %s" % {s: sorted(x) for s, x in sets.items()})
     s, v = min(good, key=lambda sv: sv[1]["wall_s"])
     v["backend"] = s
-    if n_sel is not None and len(v["results"]) != n_sel:
-        raise ToolError("selected %d properties but cbmc reported %d" % (n_sel, len(v["results"])))
+    # unwinding / recursion assertions are generated during symbolic execution: they are not listed by --show-properties
+    # and are reported whatever the --property selection says
+    n_rep = sum(1 for r in v["results"] if not re.search(r"\.(unwind|recursion)(\.\d+)?$", r["property"]))
+    if n_sel is not None and n_rep != n_sel:
+        raise ToolError("selected %d properties but cbmc reported %d" % (n_sel, n_rep))
     v["cmd"] = re.sub(r"( --property \S+)+", " --property <all but the accepted check classes>", v["cmd"])
     return v
 
